@@ -73,6 +73,7 @@ type Exec struct {
 	stack     []*ssa.Function
 	quotSplits int
 	pcDirty   bool
+	tables    map[*Value]string
 	ivalChecks int
 	extraSolvers map[string]*Solver
 	fallbacks []string
@@ -852,6 +853,46 @@ func (e *Exec) loadSym(se symElem) Value {
 	}
 	if hi > int64(len(se.base)-1) {
 		hi = int64(len(se.base) - 1)
+	}
+	// large constant tables: one SMT array per table and path, lookups are selects
+	if hi-lo >= 31 {
+		allConc := true
+		var vlo, vhi int64
+		for i := lo; i <= hi; i++ {
+			v := se.base[i].(Int)
+			if v.S != nil {
+				allConc = false
+				break
+			}
+			if i == lo || v.C < vlo {
+				vlo = v.C
+			}
+			if i == lo || v.C > vhi {
+				vhi = v.C
+			}
+		}
+		if allConc {
+			el := se.base[lo].(Int)
+			key := &se.base[0]
+			name, ok := e.tables[key]
+			isort, esort := e.intSort(se.idx.W), e.intSort(el.W)
+			if !ok {
+				e.nterm++
+				name = fmt.Sprintf("tab%d", e.nterm)
+				e.sol.Send(fmt.Sprintf("(declare-const %s (Array %s %s))", name, isort.String(), esort.String()))
+				for i := range se.base {
+					iv := e.intTerm(Int{W: se.idx.W, Sg: se.idx.Sg, C: int64(i)})
+					ev := e.intTerm(se.base[i].(Int))
+					e.sol.Send(fmt.Sprintf("(assert (= (select %s %s) %s))", name, iv.Name, ev.Name))
+				}
+				e.tables[key] = name
+			}
+			t := e.def(esort, "(select "+name+" "+se.idx.S.Name+")")
+			if el.Sg || vlo >= 0 {
+				return e.mkSym(t, el.W, el.Sg, vlo, vhi, true)
+			}
+			return e.mkSym(t, el.W, el.Sg, 0, 0, false)
+		}
 	}
 	res := se.base[hi].(Int)
 	for i := hi - 1; i >= lo; i-- {
